@@ -4907,6 +4907,10 @@ where
             return Ok((vertex_key, false));
         }
 
+        #[cfg(delaunay_verif)]
+        if crate::verif::fail("dt_insert.repair") {
+            return Err(InsertionError::CavityFilling { message: "verif failpoint".to_string() });
+        }
         let vertex_uuid = self
             .tri
             .tds
@@ -5060,6 +5064,10 @@ where
             return Ok(());
         }
 
+        #[cfg(delaunay_verif)]
+        if crate::verif::fail("dt_insert.delaunay_check") {
+            return Err(InsertionError::DelaunayValidationFailed { message: "verif failpoint".to_string() });
+        }
         self.is_valid()
             .map_err(|e| InsertionError::DelaunayValidationFailed {
                 message: e.to_string(),
@@ -5208,6 +5216,11 @@ where
                 .remove_vertex(vertex)
                 .map_err(TriangulationValidationError::from)?,
         };
+
+        #[cfg(delaunay_verif)]
+        if crate::verif::fail("dt_remove.after_removal") {
+            return Err(TdsValidationError::InconsistentDataStructure { message: "verif failpoint".to_string() }.into());
+        }
 
         let topology = self.tri.topology_guarantee();
         if self.should_run_delaunay_repair_for(topology, 0) {
